@@ -458,6 +458,61 @@ def _same(x, y):
         return False
 
 
+class ExecuteFlag(Unit):
+    """SCSI.execute(cmd[, en_raw_sense]) hands exactly the caller's raw-sense flag (False when omitted) to the device,
+    whatever class the command object has: a CHECK CONDITION is only ever captured as raw sense when the caller asked"""
+
+    name = "facade/execute:raw-sense-flag"
+    properties = ("C07", "C13")
+    witness = False
+
+    def functions(self):
+        return [scsimod().SCSI.execute]
+
+    def run(self, X, case, a):
+        from .isolation import _simple_classes
+        from .cdb_codec import _ctor_kwargs
+        from .cdb_commands import sets_offering
+
+        bad, n = [], 0
+        for cls in sorted(_simple_classes(), key=lambda c: L.layout_key(c)):
+            key = L.layout_key(cls)
+            sets = sets_offering(key)
+            if not sets:
+                continue
+            st, how = sets[0]
+            lay = L.CDB[key]
+            vals = {p: 1 for p in lay.fields}
+            try:
+                cmd = cls(C.find_opcode(st, how), **_ctor_kwargs(cls, key, vals, bytearray(8)))
+            except Exception:
+                continue
+            for given in ("omitted", False, True):
+                w = World()
+                s = object.__new__(scsimod().SCSI)
+                s.device = RecordingDevice(C.table(st), w)
+                s._blocksize = 512
+                if given == "omitted":
+                    s.execute(cmd)
+                else:
+                    s.execute(cmd, en_raw_sense=given)
+                ev = w.events("device.execute")
+                n += 1
+                want = False if given == "omitted" else given
+                if len(ev) != 1 or ev[0][2] is not want or ev[0][1] is not cmd:
+                    bad.append("%s with en_raw_sense %s: device saw %s" % (key, given, [e[2] for e in ev]))
+        return n, bad
+
+    def ensures(self, case, a, out, X):
+        if out.kind != "return":
+            yield "C07", "execute-flag-sweep-completes (raised %s: %s)" % (type(out.exc).__name__, str(out.exc)[:60]), False
+            return
+        n, bad = out.value
+        yield "C07", "execute-flag-sweep-nonempty", n > 100
+        for p in ("C07", "C13"):
+            yield p, "execute-hands-the-callers-raw-sense-flag-to-the-device%s" % (" (%s)" % "; ".join(bad[:3]) if bad else ""), not bad
+
+
 class PRInRefusal(Unit):
     """persistentreservein: every integer that is not a defined service action is refused with ValueError"""
 
@@ -574,6 +629,7 @@ def build_units():
         if FACADE.get(m) is not None:
             us.append(register(FacadeAgain(m)))
     us.append(register(PRInRefusal()))
+    us.append(register(ExecuteFlag()))
     return us
 
 
